@@ -41,7 +41,7 @@ SHRINK_LISTS = ["msgs"]
 
 URL = "http://sim.test/mcp"
 STATUSES = [200, 200, 200, 202, 204, 308, 307, 400, 401, 404, 429, 500, 503]
-CTYPES = ["application/json", "application/json; charset=utf-8", "text/event-stream", "text/event-stream; charset=utf-8", "text/plain", None]
+CTYPES = ["application/json", "application/json; charset=utf-8", "text/event-stream", "text/event-stream; charset=utf-8", "text/plain", None, "text/event-stream; charset=iso-8859-1", "application/json; charset=utf-8", "text/event-stream;charset=UTF-8"]
 BODIES = ["response", "response", "error_response", "batch", "notifs_then_response", "wrong_id", "empty", "truncated", "non_json", "non_utf8", "latin1_json", "utf16_odd",
           "unicode_response", "json_scalar", "json_null", "id_only_object", "empty_array"]
 EXCS = [None, None, None, None, None, "ConnectError", "ConnectTimeout", "ReadTimeout", "RemoteProtocolError", "ReadError"]
@@ -208,7 +208,7 @@ def _messages_for(body, rid, k):
     return None
 
 
-def _sse_bytes(msgs, enc):
+def _sse_bytes(msgs, enc, ascii_only=False):
     eol = enc["eol"]
     sp = " " if enc["space"] else ""
     out = []
@@ -226,10 +226,10 @@ def _sse_bytes(msgs, enc):
         if enc["event"]:
             out.append(f"event:{sp}{enc['event']}")
         if enc.get("multiline"):
-            for ln in json.dumps(m, indent=1, ensure_ascii=False).split("\n"):
+            for ln in json.dumps(m, indent=1, ensure_ascii=ascii_only).split("\n"):
                 out.append(f"data:{sp}{ln}")
         else:
-            out.append(f"data:{sp}{json.dumps(m, ensure_ascii=False)}")
+            out.append(f"data:{sp}{json.dumps(m, ensure_ascii=ascii_only)}")
         if i < len(msgs) - 1 or enc.get("final_blank", True):
             out.append("")
     return (eol.join(out) + eol).encode("utf-8")
@@ -238,12 +238,14 @@ def _sse_bytes(msgs, enc):
 def _body_bytes(b, rid, k, is_sse):
     body = b["body"]
     msgs = _messages_for(body, rid, k)
+    # a server that declares a non-UTF-8 charset sends \u-escaped (pure ASCII) JSON: the bytes mean the same in either charset
+    asc = "8859" in (b.get("ctype") or "")
     if msgs is not None:
         if is_sse:
-            return _sse_bytes(msgs, b["sse"])
+            return _sse_bytes(msgs, b["sse"], asc)
         if body == "batch" or len(msgs) > 1:
-            return json.dumps(msgs, ensure_ascii=False).encode()
-        return json.dumps(msgs[0], ensure_ascii=False).encode()
+            return json.dumps(msgs, ensure_ascii=asc).encode()
+        return json.dumps(msgs[0], ensure_ascii=asc).encode()
     if body == "empty":
         return b""
     if body == "truncated":
